@@ -392,6 +392,8 @@ class Arith:
                     return bytes(a) + bytes(b)
                 return SBytes(self.sbytes(a).bs + self.sbytes(b).bs)
             raise Unsupported("bytes op")
+        if t is ast.Add and isinstance(a, Opaque) and isinstance(b, Opaque) and getattr(a, "term", None) is not None and getattr(b, "term", None) is not None:
+            return self.blob_concat(a, b)
         if isinstance(a, (Opaque, str)) or isinstance(b, (Opaque, str)):
             if isinstance(a, str) and isinstance(b, str) and t is ast.Add:
                 return a + b
@@ -425,6 +427,20 @@ class Arith:
         if self.mode == "bv":
             return self.binop_bv(t, a, b, pc)
         return self.binop_int(t, a, b, pc)
+
+    def blob_concat(self, a, b):
+        """concatenation of two ideal byte strings: an injective pairing of the terms they stand for"""
+        f = z3.Function("Concat2", z3.IntSort(), z3.IntSort(), z3.IntSort())
+        r = f(a.term, b.term)
+        pairs = self.__dict__.setdefault("_concat_apps", [])
+        for r2, x2, y2 in pairs:
+            self.assumptions.append(z3.Implies(r == r2, z3.And(a.term == x2, b.term == y2)))
+        pairs.append((r, a.term, b.term))
+        o = Opaque("bytes")
+        o.term, o.src, o.slicer = r, None, None
+        la, lb = getattr(a, "length", None), getattr(b, "length", None)
+        o.length = (la + lb) if la is not None and lb is not None else None
+        return o
 
     def obj_binop(self, op, a, b, pc):
         raise Unsupported("operator on objects")      # overridden in Interp (dunder dispatch)
